@@ -43,6 +43,21 @@ else:
         LEAN = os.path.join(BUILD, "lean-" + _h)
         if not os.path.isdir(LEAN):
             shutil.copytree(LEAN_SRC, LEAN, symlinks=True)
+        else:
+            # keep the private copy's sources current (content-compared, so lake rebuilds only what changed)
+            for _dp, _dn, _fn in os.walk(LEAN_SRC):
+                if ".lake" in _dp.split(os.sep):
+                    continue
+                for _f in _fn:
+                    _src = os.path.join(_dp, _f)
+                    _dst = os.path.join(LEAN, os.path.relpath(_src, LEAN_SRC))
+                    try:
+                        _data = open(_src, "rb").read()
+                        if not os.path.exists(_dst) or open(_dst, "rb").read() != _data:
+                            os.makedirs(os.path.dirname(_dst), exist_ok=True)
+                            open(_dst, "wb").write(_data)
+                    except OSError:
+                        pass
 BIN = os.path.join(TARGET, "debug")
 BRUSH = os.path.join(BIN, "brush")
 DRV = os.path.join(LEAN, ".lake", "build", "bin", "drv")
